@@ -327,7 +327,7 @@ pub fn run_backend<B: Backend>(rec: &mut Recorder, thorough: bool, seed: u64) {
             offers.push(Offer { cls: "ed-non-canonical", bytes: nc });
         }
         _ => {
-            for f in ["rsa1024-0", "rsa2048-1", "rsa3072-0", "rsa4096-0", "rsa2047-0", "rsa2041-0", "rsa2049-0", "rsa2055-0", "rsa2040-0"] {
+            for f in ["rsa1024-0", "rsa2048-1", "rsa3072-0", "rsa4096-0", "rsa2047-0", "rsa2041-0", "rsa2049-0", "rsa2055-0", "rsa2040-0", "rsa2048e3-0"] {
                 let pem = std::fs::read(format!("{}/fixtures/{f}.pub.pem", env!("CARGO_MANIFEST_DIR"))).unwrap();
                 let der = pem_body(&pem).unwrap();
                 offers.push(Offer { cls: "rsa-pem", bytes: pem });
@@ -406,7 +406,7 @@ pub fn run_backend<B: Backend>(rec: &mut Recorder, thorough: bool, seed: u64) {
             }
         }
         _ => {
-            for f in ["rsa1024-0", "rsa2048-1", "rsa3072-0", "rsa4096-0", "rsa2047-0", "rsa2041-0", "rsa2049-0", "rsa2055-0", "rsa2040-0"] {
+            for f in ["rsa1024-0", "rsa2048-1", "rsa3072-0", "rsa4096-0", "rsa2047-0", "rsa2041-0", "rsa2049-0", "rsa2055-0", "rsa2040-0", "rsa2048e3-0"] {
                 let pem = std::fs::read(format!("{}/fixtures/{f}.sec.pem", env!("CARGO_MANIFEST_DIR"))).unwrap();
                 let der = pem_body(&pem).unwrap();
                 offers.push(Offer { cls: "rsa-pem", bytes: pem });
